@@ -367,6 +367,9 @@ def enumerate_paths(body, facts=None, start=0, max_paths=50000, stop_calls=None,
             oe = order_edges(var, edges) if var is o else None
             if oe is not None:
                 vp, edges = oe
+            nvis = blocks.count(bb)
+            if nvis > 1:
+                vp = '%s#%d' % (vp, nvis)   # value of a later loop iteration: a different variable
             cm = {}
             for v_, labs_, _b in conds:
                 cm[v_] = (cm[v_] & labs_) if v_ in cm else set(labs_)
